@@ -30,7 +30,18 @@ META = {
                   "extent 2, or at the origin with largest extent 1, when the largest extent is positive. In-place vs "
                   "rebinding, alias vs copy, index shifts, default origins and all per-vertex expressions are regenerated "
                   "from the source on every run; loops and object identity are tied by kernel-evaluated correspondence.",
-    "level_note": "Trusted: Coq kernel + vm_compute; the transform/mesh/rings translator; the correspondence harness "
+    "level_note": "Deliberately left free: the class and message of every exception; whether a call whose ARGUMENT FORM the "
+                  "property does not name (keyword names, numpy scalars / np.bool_ / 0-1 flags, list / tuple / ndarray translation "
+                  "vectors, scipy Rotation objects, Euler angles) is answered or refused (if refused the same call is made again with "
+                  "positional python numbers, a Vec and a 3x3 array; if answered it must satisfy the property); the convention of "
+                  "several Euler angles (any composition of the quarter turns is accepted; one angle is unambiguous); merge([]) "
+                  "(None, a refusal or an empty mesh); the ORDER of edges / faces / cells in a merge result and the rotation of a "
+                  "face row (multisets; only vertices are ordered, by the running count), the numbering of its corners (the corner "
+                  "containers must describe the result's own faces / cells), whether a merge result or a copy_attributes=False copy "
+                  "carries attributes; the number of vertices of a ring; the value a transform returns; extra attributes, warnings, "
+                  "log lines left by any call; dtype / container type of index rows and scalars; which exception an isolated vertex "
+                  "gives in a connectivity query. Nothing is ever compared with a pristine run, only with the oracle. "
+                  "Trusted: Coq kernel + vm_compute; the transform/mesh/rings translator; the correspondence harness "
                   "(generators, driver: buffer identity = start address of the numpy data, exact float->rational conversion, "
                   "tolerance 1e-9(1+|x|)); numpy semantics of views, `+=` and np.array copies; deepcopy; scipy "
                   "Rotation.from_matrix/apply realise the product with the given orthogonal matrix; producers outside the "
@@ -190,6 +201,12 @@ def encode_case(case, steps):
                     t = "(OTranslate %s (PVal %s))" % (nat(op[1]), vl(p))
             elif name == "rotate_euler":
                 R = OR.euler_matrix(op[2])
+                if sum(1 for a in op[2] if a % 4) > 1:
+                    # several Euler angles: the convention is left free; the model gets the rotation that was applied
+                    og = OR.resolve(prev, op[3]) or [Fraction(0)] * 3
+                    R = OR.euler_any([OR.F3(p) for p in pre], cur[op[1]]["xyz"], og)
+                    if R is None:
+                        break
                 t = "(ORotate %s (%s, %s, %s) %s)" % (nat(op[1]), vl(R[0]), vl(R[1]), vl(R[2]), orig(op[3]))
             elif name == "rotate":
                 # the exact rational rotation matrix the generator meant (the JSON carries its nearest binary64 entries):
